@@ -37,7 +37,9 @@ def configs(tier):
         WORDS = [(0.0625,), (0.5,), (1.0,), (3.0,), (1.0, 0.0625), (0.0625, 3.0), (0.5, 0.5, 3.0), (3.0, 0.0625, 0.0625)]
     targets = [None, ("det", 2), ("det", 10), ("det", "20 docs/s"), ("det", ("interval", 0.25)), ("poisson", 2), ("poisson", 10),
                ("det", "2.5 ops/s"), ("det", "0.5 ops/s"), ("det", "12.5 docs/s"), ("det", 0.25)]
-    wus = [(1, "ops"), (5, "docs"), (3, "ops"), (5, "docs", (0,)), (3, "ops", (0, 1, 2, 3, 4, 5)), (5, "docs", (1,))]
+    wus = [(1, "ops"), (5, "docs"), (3, "ops"), (5, "docs", (0,)), (3, "ops", (0, 1, 2, 3, 4, 5)), (5, "docs", (1,)),
+           # requests of one task that differ in weight: shrinking and growing again, growing and shrinking again
+           (5, "docs", (), (5, 2, 5, 1)), (2, "docs", (), (2, 5, 2, 2)), (3, "ops", (), (3, 1, 4))]
     for clients in ((1, 2, 4) if tier == "quick" else (1, 2, 3, 4)):
         for word in WORDS:
             for tgt in targets:
@@ -50,14 +52,14 @@ def configs(tier):
                         # runners reporting several "ops" per request, and requests the runner reports as unsuccessful (with their weight):
                         # pacing and counts are those of any other request
                         if tgt and tgt[0] == "det" and word in (WORDS[0], WORDS[2]):
-                            for w, n in ((None, 3), (1, 3)):
+                            for w, n in ((None, 3), (1, 3)) + (((1, 5),) if len(wu) > 3 else ()):
                                 yield ("iter", clients, word, tgt, wu, (w, n), None)
                         continue
                     for w in (None, 0, 1, 2, 3):
                         for n in (1, 2, 3):
                             yield ("iter", clients, word, tgt, wu, (w, n), None)
                     for wt in (0, 1, 2.5):
-                        for t in (1, 3):
+                        for t in (1, 3) + ((0,) if wt else ()):  # time-period 0: a warm-up-only time-based task
                             for ramp in (None, 1, 2):
                                 if ramp and (clients == 1 or tier == "quick" and word != WORDS[0] and word != WORDS[2]):
                                     continue
@@ -140,6 +142,8 @@ def build(cfg):
         if sched == "poisson":
             task_kw["schedule"] = "poisson"
     op_params = {"weight": weight, "unit": unit}
+    if len(wu) > 3:
+        op_params["weight-sequence"] = list(wu[3])
     if len(wu) > 2:
         op_params["unsuccessful-at"] = list(wu[2])  # the runner reports success=False (with its weight) for these invocations
     if kind == "time-source":
@@ -189,7 +193,18 @@ def check(cfg, res):
     N, W = e["metrics"].SampleType.Normal, e["metrics"].SampleType.Warmup
     task, allocs, behaviour = build(cfg)
     random.seed(4711)
-    r = loadgen.run_worker(allocs, behaviour, on_error="continue", horizon=10_000.0)
+    # horizon: a legitimate run of these configurations needs at most 20 requests per client (iterations, source sizes) or warm-up +
+    # time period + ramp-up seconds; a task that does not end is reported when the virtual clock passes the horizon
+    if kind == "time":
+        horizon = 4 * (lc[0] + lc[1] + (ramp or 0)) + 8 * max(word) + 20
+    else:
+        pace = 0.0
+        if tgt:
+            val = tgt[1]
+            rate = 1.0 / val[1] if isinstance(val, tuple) else float(val.split()[0]) if isinstance(val, str) else float(val)
+            pace = max([weight] + list(wu[3] if len(wu) > 3 else ())) * clients / rate
+        horizon = 40 * (max(word) + pace) + 20
+    r = loadgen.run_worker(allocs, behaviour, on_error="continue", horizon=horizon)
     v = None
     interval = None
     if r.error is not None or r.loop_errors:
@@ -214,6 +229,7 @@ def check(cfg, res):
                 rate, tunit = float(val), "ops/s"
             w_eff = weight if f"{unit}/s" == tunit else 1
             interval = w_eff * clients / rate
+            wseq = wu[3] if len(wu) > 3 else None
         for cid in range(clients):
             ss = by_client.get(cid, [])
             lg = logs.get(cid, [])
@@ -307,7 +323,12 @@ def check(cfg, res):
             if tgt and len(sched) > 1 and not (kind == "time" and False):
                 if tgt[0] == "det":
                     diffs = [b - a for a, b in zip(sched, sched[1:])]
-                    if any(abs(d - interval) > 1e-9 for d in diffs):
+                    if wseq:
+                        # the request after one of weight w is scheduled w*C/T later
+                        want = [(wseq[j % len(wseq)] if f"{unit}/s" == tunit else 1) * clients / rate for j in range(len(diffs))]
+                        if any(abs(d - x) > 1e-9 for d, x in zip(diffs, want)):
+                            v = ("pacing-interval-varying-weight", f"{ctx}: scheduled at {sched}, request weights {list(wseq)} {unit} (cycling), {clients} clients, target {tgt[1]}: expected gaps {want}")
+                    elif any(abs(d - interval) > 1e-9 for d in diffs):
                         v = ("pacing-interval", f"{ctx}: scheduled at {sched}, expected {interval} s apart (weight {weight} {unit}, {clients} clients, target {tgt[1]})")
                 elif clients == 1:
                     random.seed(4711)
@@ -335,7 +356,7 @@ def check(cfg, res):
         res.violation(
             f"schedule:{v[0]}:{kind}" + (":unit-mismatch" if tgt and interval is not None and f"{unit}/s" != "ops/s" and not isinstance(tgt[1], str) else ""),
             f"{kind} clients={clients} service_times={list(word)} target={tgt} weight/unit={weight}/{unit} params={lc} ramp-up={ramp}: {v[1]}",
-            {"cfg": [kind, clients, list(word), list(tgt) if tgt else None, [weight, unit] + ([list(wu[2])] if len(wu) > 2 else []), list(lc), ramp]},
+            {"cfg": [kind, clients, list(word), list(tgt) if tgt else None, [weight, unit] + ([list(wu[2])] if len(wu) > 2 else []) + ([list(wu[3])] if len(wu) > 3 else []), list(lc), ramp]},
         )
 
 
@@ -499,6 +520,6 @@ def replay(data):
     if c[3]:
         val = c[3][1]
         tgt = (c[3][0], tuple(val) if isinstance(val, list) else val)
-    wu = tuple(c[4][:2]) + ((tuple(c[4][2]),) if len(c[4]) > 2 else ())
+    wu = tuple(c[4][:2]) + ((tuple(c[4][2]),) if len(c[4]) > 2 else ()) + ((tuple(c[4][3]),) if len(c[4]) > 3 else ())
     check((c[0], c[1], tuple(c[2]), tgt, wu, tuple(c[5]), c[6]), res)
     return [v for lst in res.violations.values() for v in lst]
